@@ -105,6 +105,7 @@ def versions(history):
                 {'label': st_['label'], 'mutations': st_['seq']})
         else:
             S.add_model(spec, st_['app'], copy.deepcopy(st_['model']))
+            mutgen.ensure_uids(spec)
             grown.add(st_['app'])
             if st_['app'] not in apps:
                 apps = apps + [st_['app']]
